@@ -1,5 +1,5 @@
 (* C17 — SQL conform is idempotent, content-preserving, keeps SELECT markers coherent. *)
-From DR Require Import Model.Reach Proofs.SqlStruct Proofs.SqlRules Proofs.SqlBinary.
+From DR Require Import Model.Reach Proofs.SqlStruct Proofs.SqlRules Proofs.SqlBinary Proofs.SqlJoinId.
 
 (* whatever conform returns is a SELECT marker, and conforming it again returns it unchanged *)
 Theorem C17_conform_returns_select : forall t c, conform t = Ok c -> is_select c = true.
@@ -17,13 +17,29 @@ Theorem C17_append_binary_returns_select : forall b l r s,
 Proof. exact append_binary_sel_is_select. Qed.
 
 (* conforming a raw tree (assembled without the engine's help: leaves, transfers and materializations at the bottom,
-   any unary operations, chains, joins of operands that have columns, already conformed subtrees) returns a
-   conformed relation with the same rows — as a list —, columns and engine; all markers in it are coherent
-   (good_all: marker, skip target and target chain agree and denote the recorded slots) *)
+   any unary operations, chains, joins — also of operands without columns, where the join-identity elision re-enters
+   conform —, already conformed subtrees) returns a conformed relation with the same rows — as a list —, columns and
+   engine; all markers in it are coherent (good_all: marker, skip target and target chain agree and denote the
+   recorded slots, and so does every marker inside a skip target).  The tree has to be well-formed over truthful
+   leaves, and the markers it already contains have to be good (chains_good). *)
 Theorem C17_conform_preserves_rows : forall env t s,
+  wf_tree t -> env_ok env t -> chains_good env t -> conform t = Ok s ->
+  good_all env s /\ sem_tree env s = sem_tree env t /\ columns s = columns t /\ engine_of s = engine_of t.
+Proof. exact conform_sound_gen. Qed.
+
+(* the earlier, syntactic form of the hypothesis (joins of operands that have columns) *)
+Theorem C17_conform_preserves_rows_raw : forall env t s,
   raw_ok env t -> conform t = Ok s ->
   good_all env s /\ sem_tree env s = sem_tree env t /\ columns s = columns t /\ engine_of s = engine_of t.
 Proof. exact conform_sound. Qed.
+
+(* non-vacuity of the general form: a join with the join identity under a predicate, conformed from a raw tree *)
+Example C17_identity_join_in_scope :
+  let leaf := Leaf 1 (Eng KSql 0) (mkset [2; 4]%positive) 0 None in
+  let ident := Leaf 2 (Eng KSql 0) ∅ 1 (Some 1%Z) in
+  let t := Bin (Join (PCmp CLt (ERef 2) (ELit 3)) ∅) (Un (Proj (mkset [2%positive])) leaf) ident in
+  is_join_identity ident = true /\ match conform t with Ok s => is_select s = true | Err _ => False end.
+Proof. vm_compute. split; reflexivity. Qed.
 
 (* the marker is flagged compound precisely when its skip target is a chain *)
 Theorem C17_compound_iff_chain : forall sl k t, sel_compound (SelM sl k t) = is_chain k.
